@@ -198,6 +198,8 @@ def obs_agree(obs, ref):
     """ref may contain ("rat", n, d): the exact rational a float must round."""
     if ref[0] == "rat":
         return obs[0] == "float" and float_close(obs[1], obs[2], ref[1], ref[2])
+    if ref[0] == "tsnear":
+        return obs[0] == "ts" and ts_near(obs[1], ref[1], ref[2])
     return tuple(obs) == tuple(ref)
 
 
@@ -212,6 +214,26 @@ UNITS = {"UMicroseconds": ("microseconds", 1), "UMilliseconds": ("milliseconds",
          "UHours": ("hours", 36 * 10 ** 8), "UDays": ("days", 864 * 10 ** 8)}
 FIELD_NAMES = ["year", "month", "day", "hour", "minute", "second", "microsecond"]
 TSOPS = {"TAdd": "%s + %s", "TSub": "%s - %s", "TMulInt": "%s * %s", "TDivTs": "%s / %s", "TNeg": "-%s", "TPos": "+%s"}
+
+
+def num_value(n):
+    """number spec ["int", k] | ["float", hex] -> python number"""
+    return int(n[1]) if n[0] == "int" else float.fromhex(n[1])
+
+
+def num_term(n):
+    if n[0] == "int":
+        return gal.app("NInt", gal.z(n[1]))
+    a, b = float.fromhex(n[1]).as_integer_ratio()
+    return gal.app("NFloat", gal.z(a), "%d%%positive" % b)
+
+
+def num_fraction(n):
+    return fractions.Fraction(num_value(n))
+
+
+def ts_near(r, num, den):
+    return abs(r * den - num) * (1 << 52) <= den * (1 << 51) + 2 * abs(num)
 
 
 def timestamp_literal(s_us, style):
@@ -286,6 +308,12 @@ def case_text(c):
         return "timespan(%s)" % ", ".join("%s => %d" % (n, v) for n, v in zip(names, a)), None
     if op == "OpTsCmp":
         return "$.x %s $.y" % CMPS[a[0]], {"x": a[1] * US, "y": a[2] * US}
+    if op == "OpTsMul":
+        return "$.x * $.n", {"x": a[0] * US, "n": num_value(a[1])}
+    if op == "OpTsMulR":
+        return "$.n * $.x", {"x": a[1] * US, "n": num_value(a[0])}
+    if op == "OpTsDiv":
+        return "$.x / $.n", {"x": a[0] * US, "n": num_value(a[1])}
     if op == "OpTsOp":
         if a[0] == "TMulInt":
             return "$.x * $.y", {"x": a[1] * US, "y": a[2]}
@@ -325,6 +353,10 @@ def case_op_term(c):
         return gal.app(op, a[0], z(a[1]), z(a[2]))
     if op == "OpTsOp":
         return gal.app(op, a[0], z(a[1]), z(a[2]))
+    if op in ("OpTsMul", "OpTsDiv"):
+        return gal.app(op, z(a[0]), num_term(a[1]))
+    if op == "OpTsMulR":
+        return gal.app(op, num_term(a[0]), z(a[1]))
     raise ValueError(op)
 
 
@@ -409,6 +441,20 @@ def reference(c):
         if op == "OpTimespan":
             d, h, m, s, ms, us = a
             return _ts_obs(((((d * 24 + h) * 60 + m) * 60 + s) * 1000 + ms) * 1000 + us), None
+        if op in ("OpTsMul", "OpTsMulR", "OpTsDiv"):
+            t, n = (a[1], a[0]) if op == "OpTsMulR" else (a[0], a[1])
+            if op == "OpTsDiv":
+                if num_value(n) == 0:
+                    return ("err", "ZeroDiv"), None
+                q = fractions.Fraction(t) / num_fraction(n)
+            else:
+                q = fractions.Fraction(t) * num_fraction(n)
+                if n[0] == "int":
+                    return _ts_obs(t * int(n[1])), None
+            fl = q.numerator // q.denominator
+            if _ts_obs(fl - 1)[0] == "err" or _ts_obs(fl + 2)[0] == "err":
+                return ("err", "RangeErr"), None
+            return ("tsnear", q.numerator, q.denominator), None
         if op == "OpTsCmp":
             return ("bool", py_cmp(a[0], a[1], a[2])), None
         if op == "OpTsOp":
@@ -451,6 +497,9 @@ LAW = {
     "OpTimespan": "timespan(...) is not the sum of its components",
     "OpTsCmp": "timespan comparison is not that of the microsecond counts",
     "OpTsOp": "timespan arithmetic is not that of the microsecond counts",
+    "OpTsMul": "timespan * number is not the timespan nearest microseconds * number",
+    "OpTsMulR": "number * timespan is not the timespan nearest microseconds * number",
+    "OpTsDiv": "timespan / number is not the timespan nearest microseconds / number",
 }
 
 
@@ -541,8 +590,35 @@ def gen_components(rng):
     return [c(4000000 if big else 800), c(100), c(200), c(100000), c(5000), c(3000000)]
 
 
+def gen_number(rng):
+    r = rng.random()
+    if r < 0.45:
+        return ["int", rng.choice([0, 1, -1, 2, -2, 3, 7, 10, -10, 24, 60, 1000, rng.randrange(-10 ** 4, 10 ** 4)])]
+    if r < 0.7:
+        return ["float", float(rng.choice([0.5, -0.5, 0.1, 1.5, -2.25, 0.001, 1e-6, 3.0, 0.0, 1 / 3, 2 / 3, 1e3, 24.0])).hex()]
+    return ["float", float(rng.uniform(-100, 100)).hex()]
+
+
+def gen_scale(rng):
+    t = gen_ts(rng)
+    if rng.random() < 0.25:
+        t = rng.randrange(-10 ** 7, 10 ** 7)          # small counts: ties at half a microsecond matter
+    n = gen_number(rng)
+    q = rng.random()
+    if q < 0.3:
+        return {"op": "OpTsMul", "args": [t, n]}
+    if q < 0.5:
+        return {"op": "OpTsMulR", "args": [n, t]}
+    if q < 0.75 or n[0] != "int" or int(n[1]) == 0 or abs(t * int(n[1])) >= 8 * 10 ** 19:
+        return {"op": "OpTsDiv", "args": [t, n]}
+    return {"op": "OpTsDiv", "args": [t * int(n[1]), n]}       # a multiple: (t * k) / k
+
+
 def gen_case(rng):
     r = rng.random()
+    if r < 0.05:
+        return gen_scale(rng)
+    r = (r - 0.05) / 0.95
     if r < 0.14:
         # datetime(timestamp, offset): timestamps over the whole range, near the edges, and just outside
         style = rng.choice(["int", "float", "float"])
@@ -674,7 +750,8 @@ _seen_fail = {}
 
 def report_case(run, c, text, obs, model_disagrees):
     req = judge(c, obs)
-    key = (c["op"], c["args"][0] if c["op"] in ("OpCmp", "OpField", "OpUnit", "OpTsOp") else None,
+    key = (c["op"], c["args"][0] if c["op"] in ("OpCmp", "OpField", "OpUnit", "OpTsOp") else
+           [x[0] for x in c["args"] if isinstance(x, list)][0] if c["op"] in ("OpTsMul", "OpTsMulR", "OpTsDiv") else None,
            tuple(sorted({h["kind"] == "naive" for h in specs_of(c)})), req is None)
     _seen_fail[key] = _seen_fail.get(key, 0) + 1
     if _seen_fail[key] > 1:
@@ -700,6 +777,9 @@ THEOREMS = {
     "OpAdd": ["C20_add_sub"], "OpAddR": ["C20_add_sub"], "OpSubTs": ["C20_add_sub"], "OpDiff": ["C20_add_sub"],
     "OpCmp": ["C20_order_is_instant_order", "C20_naive_is_utc"],
     "OpUnit": ["C20_units"], "OpTimespan": ["C20_units"],
+    "OpTsMul": ["C20_timespan_scale", "C20_timespan_scale_rational"], "OpTsMulR": ["C20_timespan_scale_rational"],
+    "OpTsDiv": ["C20_timespan_scale", "C20_timespan_scale_rational"], "OpTsOp": ["C20_timespan_ratio", "C20_timespan_order"],
+    "OpTsCmp": ["C20_timespan_order"],
     "OpBuild": ["C20_civil_roundtrip"], "OpReplace": ["C20_fields_determine_reading", "C20_naive_is_utc"],
     "OpField": ["C20_civil_roundtrip"], "OpDate": ["C20_date_time_split"], "OpTime": ["C20_date_time_split"],
 }
@@ -869,6 +949,60 @@ def law_units(inp):
     return None
 
 
+def law_scale(inp):
+    """(t * k) / k = t ; k * t = t * k ; (t * k) / t = k ; -(-t) = t ; t + (-t) = 0"""
+    t_us, k = inp["t"], inp["k"]
+    data = {"t": t_us * US, "k": k}
+    want = t_us * US
+    r = ev("($.t * $.k) / $.k", data)
+    if not (isinstance(r, datetime.timedelta) and r == want):
+        return {"observed": "(t * k) / k -> %r" % (r,), "required": repr(want)}
+    r = ev("$.k * $.t = $.t * $.k and ($.k * $.t).microseconds = $.t.microseconds * $.k", data)
+    if r is not True:
+        return {"observed": "k * t = t * k and (k * t).microseconds = t.microseconds * k -> %r" % (r,), "required": True}
+    if t_us != 0:
+        r = ev("($.t * $.k) / $.t", data)
+        if not (isinstance(r, float) and float_close(*r.as_integer_ratio(), k, 1)):
+            return {"observed": "(t * k) / t -> %r" % (r,), "required": float(k)}
+    r = ev("-(-$.t) = $.t and $.t + (-$.t) = timespan() and (-$.t).microseconds = -($.t.microseconds)", data)
+    if r is not True:
+        return {"observed": "-(-t) = t and t + (-t) = timespan() and (-t).microseconds = -(t.microseconds) -> %r" % (r,),
+                "required": True}
+    return None
+
+
+def law_date_time(inp):
+    """d.date + d.time = d ; d - d.date = d.time ; d.date is midnight"""
+    spec = inp["d"]
+    d = ref_aware(spec)
+    data = {"a": host(spec)}
+    t = host_text(spec, "a")
+    r = ev("%s.date + %s.time" % (t, t), data)
+    if not same_dt(r, d):
+        return {"observed": "d.date + d.time -> %r" % (r,), "required": repr(d)}
+    r = ev("%s - %s.date = %s.time and %s.date.hour = 0 and %s.date.time = timespan() and %s.date <= %s" % ((t,) * 7), data)
+    if r is not True:
+        return {"observed": "d - d.date = d.time and d.date.hour = 0 and d.date.time = timespan() and d.date <= d -> %r" % (r,),
+                "required": True}
+    return None
+
+
+def law_replace_offset(inp):
+    """d.replace(offset => o) keeps the wall reading and moves the instant by the offset difference"""
+    spec, offmin = inp["d"], inp["offmin"]
+    d = ref_aware(spec)
+    want = d.replace(tzinfo=datetime.timezone(datetime.timedelta(minutes=offmin)))
+    data = {"a": host(spec), "o": datetime.timedelta(minutes=offmin)}
+    t = host_text(spec, "a")
+    r = ev("%s.replace(offset => $.o)" % t, data)
+    if not same_dt(r, want):
+        return {"observed": "d.replace(offset => o) -> %r" % (r,), "required": repr(want)}
+    r = ev("%s.replace(offset => $.o) - %s" % (t, t), data)
+    if not (isinstance(r, datetime.timedelta) and r == want - d and r == d.utcoffset() - datetime.timedelta(minutes=offmin)):
+        return {"observed": "d.replace(offset => o) - d -> %r" % (r,), "required": repr(want - d)}
+    return None
+
+
 UNARY = ["timestamp", "utc", "offset", "date", "time", "year", "month", "day", "hour", "minute", "second", "microsecond",
          "weekday"]
 
@@ -913,6 +1047,9 @@ LAWS = {
     "order_is_instant_order": (law_order, "equality/ordering of datetimes is not that of their instants (naive taken as UTC)"),
     "units": (law_units, "timespan unit properties are not one quantity in different units"),
     "naive_is_utc": (law_naive, "a naive host datetime is not treated as the same reading at UTC"),
+    "timespan_scale": (law_scale, "timespan scaling / ratio / negation laws fail"),
+    "date_plus_time": (law_date_time, "d.date + d.time = d fails"),
+    "replace_offset": (law_replace_offset, "d.replace(offset => o) does not keep the wall reading / move the instant by the offset difference"),
 }
 _law_fail = {}
 
@@ -990,6 +1127,12 @@ def oracle(run, deep):
         a = gen_host(rng)
         check_law(run, "order_is_instant_order", {"a": a, "b": gen_related(rng, a)})
         check_law(run, "units", {"t": gen_ts(rng)})
+        if i % 2 == 0:
+            t = gen_ts(rng)
+            t = t if abs(t) < 2 ** 50 else t % (2 ** 40)
+            check_law(run, "timespan_scale", {"t": t, "k": rng.choice([1, -1, 2, 3, -7, 10, 60, 1000, rng.randrange(1, 10 ** 4)])})
+            check_law(run, "date_plus_time", {"d": gen_host(rng)})
+            check_law(run, "replace_offset", {"d": gen_host(rng), "offmin": gen_offmin(rng)})
         if i % 4 == 0:
             check_law(run, "naive_is_utc", {"wall": gen_wall(rng), "other": gen_host(rng, ["naive", "timezone", "tzoffset", "tzutc"]),
                                             "t": gen_ts(rng)})
